@@ -14,8 +14,10 @@ package c09
 //   * first matching route wins, otherwise the default; "reject" rejects;
 //   * resolver failures are errors, never a match.
 //
-// The evaluator is three-valued (true / false / error) and does not fix an evaluation order:
-// and3(false, error) and or3(true, error) allow both results.
+// The evaluator is three-valued (true / false / error). Inside the destination group and inside
+// "matched domain AND expected prefixes" it does not fix an evaluation order: and3(false, error)
+// and or3(true, error) allow both results. Across kinds it is stricter: when a condition that
+// needs no resolver is false, the route is a definite non-match (never an error).
 
 import (
 	"net/netip"
@@ -203,14 +205,17 @@ func (w *world) prefixes(list []netip.Prefix, sets []string) []netip.Prefix {
 }
 
 type evalInfo struct {
-	errKind    string
-	resolved   bool
-	skipped    bool // a resolver failing with ErrLookup was passed over and a later one answered
-	inverted   bool // a present criterion of this route carries an invert flag
-	orGroup    bool // a group with more than one member list is present
-	fromRepr   string
-	toRepr     string
-	port0VsSet string // "", "from-<repr>", "to-<repr>"
+	errKind  string
+	resolved bool
+	skipped  bool // a resolver failing with ErrLookup was passed over and a later one answered
+	inverted bool // a present criterion of this route carries an invert flag
+	orGroup  bool // a group with more than one member list is present
+	// a resolver-independent condition is false and the destination group could only be decided
+	// through a failing resolver: the route simply does not match
+	cheapFalseResolverFails bool
+	fromRepr                string
+	toRepr                  string
+	port0VsSet              string // "", "from-<repr>", "to-<repr>"
 }
 
 // evalRoute returns the set of acceptable verdicts of one route for one request.
@@ -330,6 +335,16 @@ func (w *world) evalRoute(rm *routeModel, q *request) (uint8, evalInfo) {
 		}
 		if members > 1 {
 			info.orGroup = true
+		}
+		if acc == vF {
+			// A resolver-independent condition of this route (network, server, user, source or
+			// destination port, source prefix) is already false: the route's "stated conditions" are
+			// not all satisfied whatever the resolver would say, so by the statement the request goes
+			// on to the next route. A resolver error is NOT accepted here (see NOTES.md, round 3).
+			if group&vE != 0 {
+				info.cheapFalseResolverFails = true
+			}
+			return vF, info
 		}
 		acc = and3(acc, group)
 	}
